@@ -20,7 +20,7 @@ THEOREMS = ["Yardl.C01.value_round_trip", "Yardl.C01.stream_round_trip", "Yardl.
             "Yardl.C01.cpp_reader_refines_var64", "Yardl.C01.cpp_reader_refines_var32",
             "Yardl.C01.cpp_reader_refines_byte", "Yardl.C01.cpp_reader_refines_bytes",
             "Yardl.C01.cpp_reader_refines_sequence", "Yardl.C01.cpp_reader_sequence_then_finished",
-            "Yardl.C01.written_by_either_stream_read_by_either", "Yardl.C01.py_reader_refines_sequence", "Yardl.C01.py_reader_sequence_cut"]
+            "Yardl.C01.written_by_either_stream_read_by_either", "Yardl.C01.python_stream_round_trip", "Yardl.C01.py_reader_refines_sequence", "Yardl.C01.py_reader_sequence_cut"]
 
 
 def hexfile(path):
